@@ -1,7 +1,8 @@
 """C18 -- The executable never crashes ... (partial: byte-level input code).  Shares the interpPipe job with C20 and the literal
 conversion jobs with C16 (their bounds, pointer and overflow obligations are the C18 content)."""
-import checks.C20 as C20, checks.C16 as C16
+import checks.C20 as C20, checks.C16 as C16, checks.C27 as C27
 def jobs(tier):
-    return C20.jobs(tier) + [j for j in C16.jobs(tier) if not j.name.startswith(('stringToRational.decimal', 'stringToRational.fraction'))]
+    # division by zero in constant div/mod is signalled with ArithDivisionByZeroException (obligation of the folding jobs)
+    return C20.jobs(tier) + C27.jobs_fold(4) + [j for j in C16.jobs(tier) if not j.name.startswith(('stringToRational.decimal', 'stringToRational.fraction'))]
 def info(tier, results):
     return C20.info(tier, results)
